@@ -120,6 +120,14 @@ Theorem C19_tokenize_is_fields : forall delims s,
   tokenize_spec delims s = fields delims s \/ exists l, fields delims s = l ++ [[]] /\ tokenize_spec delims s = l.
 Proof. exact tokenize_fields. Qed.
 
+(* ---- extra: qstr_comma_number, for every int (the model follows the repaired code: magnitude in unsigned arithmetic) ---- *)
+Theorem C19_comma_number_eq_spec : forall number, (-2147483648 <= number < 2147483648)%Z -> qstr_comma_number number = Ok (comma_spec number).
+Proof. exact comma_eq. Qed.
+Theorem C19_comma_number_writes_in_bounds : forall number, (-2147483648 <= number < 2147483648)%Z -> (length (comma_spec number) <= 14)%nat.
+Proof. exact comma_len. Qed.
+Theorem C19_decimal_value : forall fuel n, n < 10 ^ N.of_nat fuel -> undecimal (decimal fuel n) = n.
+Proof. exact decimal_value. Qed.
+
 (* ---- non-vacuity: the hypotheses are satisfiable and the statements say something on concrete inputs ---- *)
 Example C19_ex_trim : cstr [32; 9; 97; 32; 98; 13; 10] /\ qstrtrim 9 ([32; 9; 97; 32; 98; 13; 10] ++ [0]) = Ok [97; 32; 98; 0; 98; 0; 10; 0] /\
   trim_spec [32; 9; 97; 32; 98; 13; 10] = [97; 32; 98].
@@ -140,6 +148,8 @@ Example C19_ex_gets : gets_spec 10 [97; 13; 10; 98] = Some ([97], 3%nat) /\
 Proof. vm_compute. auto. Qed.
 Example C19_ex_tokenizer : tokenize_spec [44] [97; 44; 44; 98; 44] = [[97]; []; [98]] /\ tokenize_spec [44] [44] = [[]] /\
   qstrtokenizer 7 [97; 44; 44; 98; 44; 0] [44] = Ok [[97]; []; [98]].
+Proof. vm_compute. auto. Qed.
+Example C19_ex_comma : qstr_comma_number (-2147483648) = Ok [45; 50; 44; 49; 52; 55; 44; 52; 56; 51; 44; 54; 52; 56] /\ comma_spec 1234567 = [49; 44; 50; 51; 52; 44; 53; 54; 55].
 Proof. vm_compute. auto. Qed.
 Example C19_ex_upper_signed : qstrupper 6 [97; 122; 225; 255; 0] = Ok [65; 90; 225; 255; 0].
 Proof. vm_compute. auto. Qed.
@@ -170,3 +180,6 @@ Print Assumptions C19_strlower_eq_spec.
 Print Assumptions C19_strtok_eq_spec.
 Print Assumptions C19_strtokenizer_eq_spec.
 Print Assumptions C19_tokenize_is_fields.
+Print Assumptions C19_comma_number_eq_spec.
+Print Assumptions C19_comma_number_writes_in_bounds.
+Print Assumptions C19_decimal_value.
